@@ -86,11 +86,12 @@ def int_qshift(rng, gen):
     sum(h0a*h0b) > 0, sum(h1a*h1b) < 0 (the reference picks the tree order from these signs),
     same for the synthesis filters"""
     m = 2 * rng.randint(1, 8)
+    m1 = m if rng.random() < 0.5 else 2 * rng.randint(1, 8)      # the high-pass pair may have another length than the low-pass pair
 
-    def pair(sign):
+    def pair(sign, L):
         while True:
-            a = gen.int_filter(rng, m); b = gen.int_filter(rng, m)
+            a = gen.int_filter(rng, L); b = gen.int_filter(rng, L)
             if np.sign(np.sum(a * b)) == sign:
                 return a, b
-    h0a, h0b = pair(1); g0a, g0b = pair(1); h1a, h1b = pair(-1); g1a, g1b = pair(-1)
+    h0a, h0b = pair(1, m); g0a, g0b = pair(1, m); h1a, h1b = pair(-1, m1); g1a, g1b = pair(-1, m1)
     return (h0a, h0b, g0a, g0b, h1a, h1b, g1a, g1b)
